@@ -86,6 +86,10 @@ def translate():
          "handle_window_update_frame no longer picks the window of its own direction"),
         (ss, r"Position::Client\(\.\.\) => StreamParts \{\s*window: &mut self\.backend_window,",
          "Stream::split no longer gives a backend connection its own send window"),
+        (code, r"endpoint\.readiness_mut\(token\)\.arm_writable\(\);\s*incr!\(names::h2::SIGNAL_WRITABLE_REARMED_PEER_DATA\);",
+         "handle_data_frame no longer arms WRITABLE on the linked endpoint when it queues body bytes for it"),
+        (code, r"if open_window \{\s*self\.readiness\.arm_writable\(\);",
+         "update_initial_window_size no longer arms WRITABLE when a SETTINGS change re-opens a stream window"),
         (cs, r"self\.window -= i32::try_from\(payload_len\)\.unwrap_or\(i32::MAX\);",
          "converter DATA arm no longer subtracts the payload from its window"),
     ]
